@@ -82,6 +82,11 @@ def _detail_pool(e):
         pool.append(f"{e}{SEP}energy{SEP}{c}{SEP}leak")
     pool += [f"{e}{SEP}tile_shape{SEP}0", f"{e}{SEP}reservation{SEP}Buf{SEP}0{SEP}right", f"{e}{SEP}Total{SEP}energy",
              f"{e}{SEP}fused_loop{SEP}n_iterations{SEP}0", f"{e}{SEP}n_iterations", f"{e}{SEP}index"]
+    # non-joining detail columns WITHOUT the '<einsum><SEP>' prefix (kept unique per Einsum, since equal names in
+    # two Einsums' tables are outside the family): what is compressed is "every column not used in joining",
+    # not "every column of this Einsum"
+    tag = "".join(ch if ch.isalnum() else "_" for ch in str(e))
+    pool += [f"pmapping_template_{tag}", f"aux{SEP}{tag}{SEP}note", f"{tag}_id"]
     return pool
 
 
